@@ -75,6 +75,11 @@ fn invariants(svc: &Service, k: usize) -> Result<(), Fail> {
     Ok(())
 }
 
+/// histories of the bookkeeping scenario (no timer ticks): the update-field oracle applies
+fn mode_is_book(hist: &serde_json::Value) -> bool {
+    !hist["ops"].as_array().map(|a| a.iter().any(|o| matches!(o["op"].as_str(), Some("tick") | Some("takeover")))).unwrap_or(false)
+}
+
 fn one(hist: &serde_json::Value, mode: &str, h_timeout: i64, o_timeout: i64) -> Result<(), Fail> {
     let mut svc = Service::default();
     svc.service_name = Arc::new("svc".to_string());
@@ -115,6 +120,8 @@ fn one(hist: &serde_json::Value, mode: &str, h_timeout: i64, o_timeout: i64) -> 
                     None
                 };
                 let existed = svc.instances.contains_key(&key);
+                let old_stored = svc.instances.get(&key).cloned();
+                let tag_bits = tag.as_ref().map(|t| (t.enabled, t.ephemeral, t.weight));
                 let want = ins.clone();
                 svc.update_instance(ins, tag, b(op, "from_sync"), &None);
                 let now = match svc.instances.get(&key) {
@@ -125,6 +132,22 @@ fn one(hist: &serde_json::Value, mode: &str, h_timeout: i64, o_timeout: i64) -> 
                     && (now.ip != want.ip || now.port != want.port || now.weight != want.weight || now.ephemeral != want.ephemeral || now.enabled != want.enabled)
                 {
                     return Err(Fail::Property(format!("op {}: a new registration does not carry the values it was registered with", k)));
+                }
+                if let (true, Some(old_stored), true) = (existed, old_stored, mode_is_book(hist)) {
+                    // an update changes exactly the fields its tag names (no tag: all of them; a heartbeat's all-false tag: none)
+                    let (te, tp, tw) = tag_bits.unwrap_or((true, true, true));
+                    let exp_enabled = if te { want.enabled } else { old_stored.enabled };
+                    let exp_ephemeral = if tp { want.ephemeral } else { old_stored.ephemeral };
+                    let exp_weight = if tw { want.weight } else { old_stored.weight };
+                    if now.enabled != exp_enabled {
+                        return Err(Fail::Property(format!("op {}: an update of a registered instance: the stored enabled flag is {}, the tag selects {}", k, now.enabled, exp_enabled)));
+                    }
+                    if now.ephemeral != exp_ephemeral {
+                        return Err(Fail::Property(format!("op {}: an update of a registered instance: the stored ephemeral flag is {}, the tag selects {}", k, now.ephemeral, exp_ephemeral)));
+                    }
+                    if now.weight != exp_weight {
+                        return Err(Fail::Property(format!("op {}: an update of a registered instance: the stored weight is {}, the tag selects {}", k, now.weight, exp_weight)));
+                    }
                 }
                 shadow.insert(port);
                 overdue.remove(&port);
